@@ -217,7 +217,15 @@ impl EventGen for OtherElement {
         e.transmute(context)?;
         e.resolve_position(context)?;
         context.update_element(&e);
-        let mut bb = context.get_element_bbox(&e)?;
+        let mut bb = match context.get_element_bbox(&e) {
+            Ok(bb) => bb,
+            Err(err) => {
+                // This element is tried again later (e.g. a `use` whose target isn't
+                // laid out yet); until then others must not see it half laid out.
+                context.update_element(&self.0);
+                return Err(err);
+            }
+        };
         if bb.is_some() {
             context.set_prev_element(&e);
         }
